@@ -9,9 +9,15 @@ PACKAGES = {
     "server": {"dir": "internal/server"},
 }
 
+NOT_APPLICABLE = {}
+HOOK_COMMITS = []
+
 PROPS = {
     "C01": {
         "pkg": "checks", "run": "^TestVerif_C01$", "level": "exploration",
+        "technique": "stateful property-based testing (rapid state machine) against a reference model",
+        "level_text": "Generated write histories (hundreds of histories x ~20-40 steps per run) compared step by step with an executable reference model through every read path (listing unpaged/paged/HTTP, scoped and merged lookup). Sampling, not proof; small pools make id/length/flag collisions the common case.",
+        "level_note": "Trusts the reference model in harness/kit/model.go as a transcription of the statement; merged lookups are compared as per-key multisets (merge order not asserted).",
         "rule": "rapid state machine over a hub with datasets a,b,c: batches (store/parser/HTTP, 1-14 entities, ids drawn with replacement from a pool of 5, engineered equal-serialized-length rewrites, delete/un-delete flips, identical rewrites) and multi-dataset transactions (store, contextual store, HTTP); after every step listing (one call, paged, HTTP) and scoped/merged lookups are compared with the reference model. Non-trivial = history contains an overwrite with different content, an in-batch repeat, an un-delete, the same id in >=2 datasets or an equal-length rewrite; distinct by hash of the op list.",
         "assumptions": ["reference model (harness/kit/model.go) transcribes the statement", "Store.Delete() (wipe) not generated"],
         "quick": {"shards": 8, "checks": 40, "steps": 20, "timeout": 300},
